@@ -101,6 +101,36 @@ impl Prop for C05 {
                 },
             ));
         }
+        f.push(Family::new(
+            "suffixed-money",
+            Mode::Full,
+            "the 8 phrase forms and 'A is p% of what' / 'A is what % of B' with X (A, B) a money literal that carries a magnitude suffix: '2k <code>', '1,5M <code>', '<symbol>2k', '2k <symbol>' over the codes [usd, try, eur] (rated) and [kwd, cad, aed] (no configured rate; a percentage of an amount needs none) x p in [10, 12,5, 150] x both percent spellings",
+            move |ch| {
+                let (xt0, xv) = *ch.pick(&[("2k", 2000.0), ("1,5M", 1_500_000.0)]);
+                let (code, sym) = *ch.pick(&[("usd", Some("$")), ("try", Some("₺")), ("eur", Some("€")), ("kwd", None), ("cad", None), ("aed", None)]);
+                let xt = match ch.choose(3) {
+                    0 => format!("{} {}", xt0, code),
+                    1 => format!("{}{}", sym?, xt0),
+                    _ => format!("{} {}", xt0, sym?),
+                };
+                let (p, pv) = *ch.pick(&[("10", 10.0), ("12,5", 12.5), ("150", 150.0)]);
+                let pt = pct_text(&p.replace(',', "."), ch.flag());
+                let money = |v: f64| Val::Money(v, code.to_uppercase());
+                let (line, want) = match ch.choose(10) {
+                    0 => (format!("{} + {}", xt, pt), money(xv + xv / 100.0 * pv)),
+                    1 => (format!("{} - {}", xt, pt), money(xv - xv / 100.0 * pv)),
+                    2 => (format!("{} of {}", pt, xt), money(xv * pv / 100.0)),
+                    3 => (format!("{} of {}", xt, pt), money(xv * pv / 100.0)),
+                    4 => (format!("{} on {}", pt, xt), money(xv * (1.0 + pv / 100.0))),
+                    5 => (format!("{} on {}", xt, pt), money(xv * (1.0 + pv / 100.0))),
+                    6 => (format!("{} off {}", pt, xt), money(xv * (1.0 - pv / 100.0))),
+                    7 => (format!("{} off {}", xt, pt), money(xv * (1.0 - pv / 100.0))),
+                    8 => (format!("{} is {} of what", xt, pt), money(100.0 * xv / pv)),
+                    _ => (format!("{} is what % of 8k {}", xt, code), Val::Percent(100.0 * xv / 8000.0)),
+                };
+                Some(LineCase::new(line, Expect::Value(want, 1e-9), "suffixed-money"))
+            },
+        ));
         {
             let (xs, ps, operands) = (xs.clone(), ps.clone(), operands.clone());
             f.push(Family::new(
